@@ -33,7 +33,7 @@ var extraClauses = map[string][]string{
 	"C27": {"lock-released for package resourcepack"},
 	"C28": {"update-not-dropped: every early return of processUpdateForEntry lies behind 'no add-player action' and 'entry is nil'", "lock-released for package internal/tablist"},
 	"C29": {"param-substitution: $i is replaced by groups[i-1], highest index first (ReplaceAll loop descending, or Replacer pairs listed descending)"},
-	"C30": {"key-agreement: every access of StrategyManager.connectionCounters / activeConnections / latencyCache uses the same key spelling", "lock-released for StrategyManager"},
+	"C30": {"all-tried: a wholesale clear of the candidate list in the backend iterator is only reachable when a removal looked for the selected backend by literal equality (it is an element of the list, so that search cannot miss); a removal that only compares parsed addresses lets an unparsable selection discard the untried backends", "key-agreement: every access of StrategyManager.connectionCounters / activeConnections / latencyCache uses the same key spelling", "lock-released for StrategyManager"},
 	"C31": {"payload-owned: the re-encoded handshake payload does not alias a pooled or reused buffer"},
 	"C32": {"lock-released for pingStatusCache"},
 	"C35": {"lock-released for package gate"},
